@@ -3,15 +3,8 @@
 From Coq Require Import ZArith Reals Lra Psatz List Bool Lia Arith.
 From PW Require Import Num NumR Vec NpList Result.
 From PW.model Require Import M_polyline_base M_polyline_spec M_polyline_ops.
-From PW.proofs Require Import P_vec P_nplist.
+From PW.proofs Require Import P_vec P_nplist P_polyline_insert.
 Import ListNotations.
-
-Lemma nth_error_seq' : forall n s k, (k < n)%nat -> nth_error (seq s n) k = Some (s + k)%nat.
-Proof.
-  induction n as [|n IH]; intros s k H; [lia|]. destruct k as [|k]; cbn [seq nth_error].
-  - f_equal; lia.
-  - rewrite IH by lia. f_equal; lia.
-Qed.
 
 (* ---- edges --------------------------------------------------------------------------------------- *)
 Lemma edges_refines n closed : edges_for n closed = spec_edges n closed.
@@ -52,13 +45,6 @@ Proof.
 Qed.
 
 (* ---- generic list facts --------------------------------------------------------------------------- *)
-Lemma nth_error_ext' {A} : forall (l l' : list A), (forall i, nth_error l i = nth_error l' i) -> l = l'.
-Proof.
-  induction l as [|x r IH]; intros [|y r'] H; try reflexivity.
-  - specialize (H 0%nat); discriminate.
-  - specialize (H 0%nat); discriminate.
-  - f_equal; [specialize (H 0%nat); cbn in H; congruence|]. apply IH. intros i. exact (H (S i)).
-Qed.
 Lemma nth_error_skipn' {A} : forall s (l : list A) i, nth_error (skipn s l) i = nth_error l (s + i).
 Proof.
   induction s as [|s IH]; intros l i; [reflexivity|]. destruct l as [|x r]; cbn [skipn Nat.add nth_error].
@@ -388,95 +374,7 @@ Section BBox.
   Qed.
 End BBox.
 
-(* ---- histories ------------------------------------------------------------------------------------ *)
-(* operations whose refinement is proved for all arguments (see insert_* and aligned_* below for the other two) *)
-Definition op_supported (o : op R) : bool :=
-  match o with OpInsert _ _ _ => false | OpAligned _ _ => false | _ => true end.
-
-Lemma step_refines (pl : list (polyline R)) o : op_in_range pl o = true -> op_supported o = true ->
-  step (code_impl ROps) pl o = step (spec_impl ROps) pl o.
-Proof.
-  intros Hr Hs. destruct o; cbn [op_supported] in Hs; try discriminate;
-    unfold step, on, ob_poly, with_edges;
-    cbn [i_edges i_new i_flipped i_rolled i_sliced i_sectioned i_join i_insert i_index_of i_aligned i_apex i_bbox i_len
-         code_impl spec_impl].
-  - rewrite edges_refines. reflexivity.
-  - destruct (nth_error pl a); [|reflexivity]. rewrite edges_refines. reflexivity.
-  - destruct (nth_error pl a); [|reflexivity]. rewrite edges_refines. reflexivity.
-  - destruct (nth_error pl a); [|reflexivity]. rewrite rolled_refines.
-    destruct (s_rolled p k) as [[q m]|]; [rewrite edges_refines|]; reflexivity.
-  - cbn [op_in_range] in Hr. destruct (nth_error pl a); [|reflexivity].
-    apply andb_true_iff in Hr. destruct Hr as [H1 H2]. apply Nat.leb_le in H1, H2.
-    rewrite sliced_refines by assumption. destruct (s_sliced p start stop); [rewrite edges_refines|]; reflexivity.
-  - destruct (nth_error pl a); [|reflexivity]. rewrite sectioned_refines.
-    destruct (s_sectioned p bps); [|reflexivity]. do 2 f_equal. apply map_ext. intros q. rewrite edges_refines. reflexivity.
-  - destruct (fetch pl parts); [|reflexivity]. rewrite join_refines.
-    destruct (s_join l closed); [rewrite edges_refines|]; reflexivity.
-  - destruct (nth_error pl a); [|reflexivity]. rewrite index_of_refines. reflexivity.
-  - destruct (nth_error pl a); [|reflexivity]. rewrite apex_refines. reflexivity.
-  - destruct (nth_error pl a); [|reflexivity]. rewrite bbox_refines. reflexivity.
-  - destruct (nth_error pl a); [|reflexivity]. rewrite len_refines. reflexivity.
-Qed.
-
-(* for every finite history of supported operations with slice bounds in range, applied to results of
-   earlier operations, the code-shaped model and the list specification give the same values and errors *)
-Lemma history_refines : forall ops (pl : list (polyline R)),
-  forallb op_supported ops = true -> history_in_range (spec_impl ROps) pl ops ->
-  run (code_impl ROps) pl ops = run (spec_impl ROps) pl ops.
-Proof.
-  induction ops as [|o r IH]; intros pl Hs Hr; [reflexivity|].
-  cbn [forallb] in Hs. apply andb_true_iff in Hs. destruct Hs as [Hs1 Hs2].
-  cbn [history_in_range] in Hr. destruct Hr as [Hr1 Hr2].
-  cbn [run]. rewrite (step_refines pl o Hr1 Hs1). f_equal. apply IH; assumption.
-Qed.
-
-(* an operation that raises appends nothing to the pool: everything existing is unchanged (all operations) *)
-Lemma errors_leave_unchanged (I : impl R) (pl : list (polyline R)) o e :
-  snd (step I pl o) = ObRaise e -> fst (step I pl o) = pl.
-Proof.
-  destruct o; unfold step, on, ob_poly; try (destruct (nth_error pl a)); cbn; try discriminate; try reflexivity.
-  - destruct (i_rolled I p k) as [[q m]|]; cbn; [discriminate|reflexivity].
-  - destruct (i_sliced I p start stop); cbn; [discriminate|reflexivity].
-  - destruct (i_sectioned I p bps); cbn; [discriminate|reflexivity].
-  - destruct (fetch pl parts); [|reflexivity]. destruct (i_join I l closed); cbn; [discriminate|reflexivity].
-  - destruct (i_insert I p pts idx) as [[[q om] im]|]; cbn; [discriminate|reflexivity].
-  - destruct (i_aligned I p v); cbn; [discriminate|reflexivity].
-Qed.
-(* and no operation ever changes or removes an existing polyline: the pool only grows *)
-Lemma pool_only_grows (I : impl R) (pl : list (polyline R)) o : exists news, fst (step I pl o) = pl ++ news.
-Proof.
-  destruct o; unfold step, on, ob_poly; try (destruct (nth_error pl a)); cbn;
-    try (eexists; reflexivity); try (exists []; rewrite app_nil_r; reflexivity).
-  - destruct (i_rolled I p k) as [[q m]|]; cbn; [eexists; reflexivity|exists []; rewrite app_nil_r; reflexivity].
-  - destruct (i_sliced I p start stop); cbn; [eexists; reflexivity|exists []; rewrite app_nil_r; reflexivity].
-  - destruct (i_sectioned I p bps); cbn; [eexists; reflexivity|exists []; rewrite app_nil_r; reflexivity].
-  - destruct (fetch pl parts); [|exists []; rewrite app_nil_r; reflexivity].
-    destruct (i_join I l closed); cbn; [eexists; reflexivity|exists []; rewrite app_nil_r; reflexivity].
-  - destruct (i_insert I p pts idx) as [[[q om] im]|]; cbn; [eexists; reflexivity|exists []; rewrite app_nil_r; reflexivity].
-  - destruct (i_aligned I p v); cbn; [eexists; reflexivity|exists []; rewrite app_nil_r; reflexivity].
-Qed.
-
 (* ---- with_insertions ------------------------------------------------------------------------------- *)
-(* Refinement of the sort-based code shape (stable argsort, scatter, searchsorted) to the declarative
-   insertion is checked here exhaustively on a finite domain only: see C09_insert_refines_small_partial. *)
-Fixpoint all_lists (vals : list nat) (k : nat) : list (list nat) :=
-  match k with
-  | 0%nat => [[]]
-  | S k' => flat_map (fun l => map (fun x => x :: l) vals) (all_lists vals k')
-  end.
-Fixpoint nats_eqb (l l' : list nat) : bool :=
-  match l, l' with [], [] => true | a :: r, b :: r' => Nat.eqb a b && nats_eqb r r' | _, _ => false end.
-(* v = 0..n-1, inserted values 100.. : all three results of the code shape equal the specification *)
-Definition insert_agrees (n : nat) (idx : list nat) : bool :=
-  let v := seq 0 n in
-  let pts := seq 100 (length idx) in
-  nats_eqb (np_insert v idx pts) (spec_insert v idx pts) &&
-  nats_eqb (inserted_positions idx) (spec_ins_map idx) &&
-  nats_eqb (map (fun i => (i + searchsorted_right (map fst (sorted_pairs idx)) i)%nat) (seq 0 n)) (spec_orig_map n idx).
-Lemma insert_refines_small :
-  forallb (fun n => forallb (fun k => forallb (insert_agrees n) (all_lists (seq 0 (S n)) k)) (seq 0 5)) (seq 0 6) = true.
-Proof. vm_compute. reflexivity. Qed.
-
 (* the declarative maps really point at the vertices: original vertex i is found at i + #{j : idx_j <= i} *)
 Lemma emitted_length {A} p : forall idx (pts : list A), length idx = length pts ->
   length (emitted p idx pts) = count_nat (fun j => j =? p)%nat idx.
@@ -522,14 +420,221 @@ Proof.
     reflexivity.
 Qed.
 
-(* ---- aligned_with ----------------------------------------------------------------------------------- *)
-(* the cases without arithmetic; the sign argument (flip iff extent . vector < 0 through vg.project /
-   vg.scale_factor with its two NaN outcomes) is validated by the correspondence only *)
-Lemma aligned_refines_degenerate (p : polyline R) v :
-  pclosed p = true \/ (length (pv p) < 2)%nat -> c_aligned ROps p v = s_aligned ROps p v.
+(* ---- rolled: original.segments[edge_mapping] = rolled.segments, every integer roll amount ------------- *)
+Definition succ_mod (n m : nat) : nat := if (S m <? n)%nat then S m else 0%nat.
+Lemma succ_mod_Z n i : (i < n)%nat -> Z.of_nat (succ_mod n i) = ((Z.of_nat i + 1) mod Z.of_nat n)%Z.
 Proof.
-  unfold c_aligned, s_aligned. intros [H|H].
-  - rewrite H. reflexivity.
-  - destruct (pclosed p); [reflexivity|]. replace (length (pv p) <? 2)%nat with true by (symmetry; apply Nat.ltb_lt; exact H).
-    destruct (pv p) as [|a [|b r]]; [reflexivity|reflexivity|cbn in H; lia].
+  intros H. unfold succ_mod. destruct (Nat.ltb_spec (S i) n).
+  - rewrite Z.mod_small by lia. lia.
+  - assert (n = S i) by lia. subst n. replace (Z.of_nat i + 1)%Z with (Z.of_nat (S i)) by lia.
+    rewrite Z_mod_same_full. reflexivity.
 Qed.
+Lemma segments_nth {A} (v : list A) m : (m < length v)%nat ->
+  nth_error (segments v true) m = Some (nth_error v m, nth_error v (succ_mod (length v) m)).
+Proof.
+  intros H. unfold segments. rewrite nth_error_map, spec_edges_nth. unfold succ_mod.
+  destruct (Nat.ltb_spec (S m) (length v)); [reflexivity|].
+  cbn [andb]. replace (S m =? length v)%nat with true by (symmetry; apply Nat.eqb_eq; lia). reflexivity.
+Qed.
+Lemma segments_length {A} (v : list A) : length (segments v true) = length v.
+Proof.
+  unfold segments, spec_edges. rewrite map_length, app_length, map_length, seq_length.
+  destruct (length v); cbn [length]; lia.
+Qed.
+Lemma rolled_segments {A} (v : list A) (k : Z) :
+  map (nth_error (segments v true)) (spec_rot_map k (length v)) = map Some (segments (spec_rot k v) true).
+Proof.
+  apply nth_error_ext'. intros i. rewrite !nth_error_map. unfold spec_rot_map. rewrite nth_error_map.
+  destruct (Nat.lt_ge_cases i (length v)) as [Hi|Hi].
+  - set (n := length v) in *. assert (Hn : (0 < Z.of_nat n)%Z) by lia.
+    pose proof (Z.mod_pos_bound (Z.of_nat i + k) (Z.of_nat n) Hn) as Hm.
+    set (m := Z.to_nat ((Z.of_nat i + k) mod Z.of_nat n)).
+    assert (Hmn : (m < n)%nat) by (unfold m; lia).
+    assert (HmZ : Z.of_nat m = ((Z.of_nat i + k) mod Z.of_nat n)%Z) by (unfold m; lia).
+    rewrite nth_error_seq' by exact Hi. cbn [option_map Nat.add]. fold m.
+    rewrite (segments_nth (spec_rot k v) i) by (rewrite spec_rot_length; exact Hi). rewrite spec_rot_length. fold n.
+    rewrite (segments_nth v m) by exact Hmn. fold n. cbn [option_map].
+    assert (Hsi : (succ_mod n i < n)%nat) by (unfold succ_mod; destruct (Nat.ltb_spec (S i) n); lia).
+    rewrite (spec_rot_nth v k i Hi), (spec_rot_nth v k (succ_mod n i) Hsi). fold n. fold m.
+    replace (Z.to_nat ((Z.of_nat (succ_mod n i) + k) mod Z.of_nat n)) with (succ_mod n m); [reflexivity|].
+    apply Nat2Z.inj. rewrite succ_mod_Z by exact Hmn. rewrite Z2Nat.id by (apply Z.mod_pos_bound; lia).
+    rewrite succ_mod_Z by exact Hi. rewrite HmZ, !Zplus_mod_idemp_l. f_equal. ring.
+  - replace (nth_error (seq 0 (length v)) i) with (@None nat) by (symmetry; apply nth_error_None; rewrite seq_length; exact Hi).
+    replace (nth_error (segments (spec_rot k v) true) i) with (@None (option A * option A)); [reflexivity|].
+    symmetry. apply nth_error_None. rewrite segments_length, spec_rot_length. exact Hi.
+Qed.
+
+(* ---- aligned_with: vg.project / vg.scale_factor decide by the sign of extent . vector ------------------ *)
+Section Aligned.
+  Local Open Scope R_scope.
+  Lemma aligned_decision (e v : vec3 R) {T} (X Y : T) :
+    (if neqb ROps (vnorm ROps v) (n0 ROps) then X else
+     let u := vdivs ROps v (vnorm ROps v) in
+     let pr := vscale ROps (vdot ROps e u) u in
+     let d11 := vdot ROps pr pr in
+     if neqb ROps d11 (n0 ROps) then X
+     else if nltb ROps (ndiv ROps (vdot ROps pr v) d11) (n0 ROps) then Y else X)
+    = if nltb ROps (vdot ROps e v) (n0 ROps) then Y else X.
+  Proof.
+    destruct e as [p q w], v as [x y z]. cbv zeta. unfold vnorm, vnorm2, vdivs, vscale, vdot, n0; rops; cbn [vx vy vz].
+    set (n := sqrt (x * x + y * y + z * z)).
+    assert (Hn : n * n = x * x + y * y + z * z) by (apply sqrt_sqrt; nra).
+    assert (Hn0 : 0 <= n) by apply sqrt_pos. clearbody n.
+    destruct (Reqb_spec n 0) as [->|Hne].
+    - assert (x = 0 /\ y = 0 /\ z = 0) as [-> [-> ->]] by (repeat split; nra).
+      destruct (Rltb_spec (p * 0 + q * 0 + w * 0) 0); [lra|reflexivity].
+    - assert (Hpos : 0 < n) by lra.
+      set (s := p * (x / n) + q * (y / n) + w * (z / n)).
+      assert (Hd : s * (x / n) * (s * (x / n)) + s * (y / n) * (s * (y / n)) + s * (z / n) * (s * (z / n)) = s * s).
+      { transitivity (s * s * ((x * x + y * y + z * z) / (n * n))); [field; lra|]. rewrite <- Hn. field. lra. }
+      assert (Hp : s * (x / n) * x + s * (y / n) * y + s * (z / n) * z = s * n).
+      { transitivity (s * ((x * x + y * y + z * z) / n)); [field; lra|]. rewrite <- Hn. field. lra. }
+      assert (HD : p * x + q * y + w * z = s * n) by (unfold s; field; lra).
+      rewrite Hd, Hp, HD. clearbody s.
+      destruct (Reqb_spec (s * s) 0) as [H0|H0].
+      + assert (s = 0) by nra. subst s. destruct (Rltb_spec (0 * n) 0); [lra|reflexivity].
+      + assert (Hs0 : s <> 0) by (intros ->; apply H0; ring).
+        replace (s * n / (s * s)) with (n / s) by (field; assumption).
+        assert (Hiff : n / s < 0 <-> s * n < 0).
+        { unfold Rdiv. destruct (Rtotal_order s 0) as [Hs|[Hs|Hs]]; [|contradiction|].
+          - assert (/ s < 0) by (apply Rinv_lt_0_compat; exact Hs). split; intros _; nra.
+          - assert (0 < / s) by (apply Rinv_0_lt_compat; exact Hs). split; intros; nra. }
+        destruct (Rltb_spec (n / s) 0), (Rltb_spec (s * n) 0); try reflexivity; exfalso; tauto.
+  Qed.
+
+  Lemma aligned_refines (p : polyline R) v : c_aligned ROps p v = s_aligned ROps p v.
+  Proof.
+    unfold c_aligned, s_aligned. destruct (pclosed p); [reflexivity|].
+    destruct (pv p) as [|a [|b r]]; [reflexivity|reflexivity|].
+    cbn [length Nat.ltb Nat.leb].
+    exact (aligned_decision (vsub ROps (last (a :: b :: r) a) a) v (Ok p) (Ok (s_flipped p))).
+  Qed.
+End Aligned.
+
+(* ---- histories ------------------------------------------------------------------------------------ *)
+Lemma step_refines (pl : list (polyline R)) o : op_in_range pl o = true ->
+  step (code_impl ROps) pl o = step (spec_impl ROps) pl o.
+Proof.
+  intros Hr. destruct o;
+    unfold step, on, ob_poly, with_edges;
+    cbn [i_edges i_new i_flipped i_rolled i_sliced i_sectioned i_join i_insert i_index_of i_aligned i_apex i_bbox i_len
+         code_impl spec_impl].
+  - rewrite edges_refines. reflexivity.
+  - destruct (nth_error pl a); [|reflexivity]. rewrite edges_refines. reflexivity.
+  - destruct (nth_error pl a); [|reflexivity]. rewrite edges_refines. reflexivity.
+  - destruct (nth_error pl a); [|reflexivity]. rewrite rolled_refines.
+    destruct (s_rolled p k) as [[q m]|]; [rewrite edges_refines|]; reflexivity.
+  - cbn [op_in_range] in Hr. destruct (nth_error pl a); [|reflexivity].
+    apply andb_true_iff in Hr. destruct Hr as [H1 H2]. apply Nat.leb_le in H1, H2.
+    rewrite sliced_refines by assumption. destruct (s_sliced p start stop); [rewrite edges_refines|]; reflexivity.
+  - destruct (nth_error pl a); [|reflexivity]. rewrite sectioned_refines.
+    destruct (s_sectioned p bps); [|reflexivity]. do 2 f_equal. apply map_ext. intros q. rewrite edges_refines. reflexivity.
+  - destruct (fetch pl parts); [|reflexivity]. rewrite join_refines.
+    destruct (s_join l closed); [rewrite edges_refines|]; reflexivity.
+  - destruct (nth_error pl a); [|reflexivity]. rewrite insert_refines.
+    destruct (s_insert p pts idx) as [[[q om] im]|]; [rewrite edges_refines|]; reflexivity.
+  - destruct (nth_error pl a); [|reflexivity]. rewrite index_of_refines. reflexivity.
+  - destruct (nth_error pl a); [|reflexivity]. rewrite aligned_refines.
+    destruct (s_aligned ROps p v); [rewrite edges_refines|]; reflexivity.
+  - destruct (nth_error pl a); [|reflexivity]. rewrite apex_refines. reflexivity.
+  - destruct (nth_error pl a); [|reflexivity]. rewrite bbox_refines. reflexivity.
+  - destruct (nth_error pl a); [|reflexivity]. rewrite len_refines. reflexivity.
+Qed.
+
+(* for every finite history of the listed operations (all of them) with slice bounds in range, each applied to
+   results of earlier operations, the code-shaped model and the list specification give the same values and errors *)
+Lemma history_refines : forall ops (pl : list (polyline R)),
+  history_in_range (spec_impl ROps) pl ops ->
+  run (code_impl ROps) pl ops = run (spec_impl ROps) pl ops.
+Proof.
+  induction ops as [|o r IH]; intros pl Hr; [reflexivity|].
+  cbn [history_in_range] in Hr. destruct Hr as [Hr1 Hr2].
+  cbn [run]. rewrite (step_refines pl o Hr1). f_equal. apply IH; assumption.
+Qed.
+
+(* an operation that raises appends nothing to the pool: everything existing is unchanged (all operations) *)
+Lemma errors_leave_unchanged (I : impl R) (pl : list (polyline R)) o e :
+  snd (step I pl o) = ObRaise e -> fst (step I pl o) = pl.
+Proof.
+  destruct o; unfold step, on, ob_poly; try (destruct (nth_error pl a)); cbn; try discriminate; try reflexivity.
+  - destruct (i_rolled I p k) as [[q m]|]; cbn; [discriminate|reflexivity].
+  - destruct (i_sliced I p start stop); cbn; [discriminate|reflexivity].
+  - destruct (i_sectioned I p bps); cbn; [discriminate|reflexivity].
+  - destruct (fetch pl parts); [|reflexivity]. destruct (i_join I l closed); cbn; [discriminate|reflexivity].
+  - destruct (i_insert I p pts idx) as [[[q om] im]|]; cbn; [discriminate|reflexivity].
+  - destruct (i_aligned I p v); cbn; [discriminate|reflexivity].
+Qed.
+(* and no operation ever changes or removes an existing polyline: the pool only grows *)
+Lemma pool_only_grows (I : impl R) (pl : list (polyline R)) o : exists news, fst (step I pl o) = pl ++ news.
+Proof.
+  destruct o; unfold step, on, ob_poly; try (destruct (nth_error pl a)); cbn;
+    try (eexists; reflexivity); try (exists []; rewrite app_nil_r; reflexivity).
+  - destruct (i_rolled I p k) as [[q m]|]; cbn; [eexists; reflexivity|exists []; rewrite app_nil_r; reflexivity].
+  - destruct (i_sliced I p start stop); cbn; [eexists; reflexivity|exists []; rewrite app_nil_r; reflexivity].
+  - destruct (i_sectioned I p bps); cbn; [eexists; reflexivity|exists []; rewrite app_nil_r; reflexivity].
+  - destruct (fetch pl parts); [|exists []; rewrite app_nil_r; reflexivity].
+    destruct (i_join I l closed); cbn; [eexists; reflexivity|exists []; rewrite app_nil_r; reflexivity].
+  - destruct (i_insert I p pts idx) as [[[q om] im]|]; cbn; [eexists; reflexivity|exists []; rewrite app_nil_r; reflexivity].
+  - destruct (i_aligned I p v); cbn; [eexists; reflexivity|exists []; rewrite app_nil_r; reflexivity].
+Qed.
+
+
+(* ---- statement-shaped corollaries used by props/C09.v ------------------------------------------------- *)
+Lemma edges_nth n closed k :
+  nth_error (edges_for n closed) k =
+  if (S k <? n)%nat then Some (k, S k)
+  else if closed && (S k =? n)%nat then Some (k, 0%nat) else None.
+Proof. rewrite edges_refines. apply spec_edges_nth. Qed.
+
+Lemma rolled_vertex_and_map (v : list (vec3 R)) (k : Z) i : (i < length v)%nat ->
+  nth_error (spec_rot_map k (length v)) i = Some (Z.to_nat ((Z.of_nat i + k) mod Z.of_nat (length v))) /\
+  nth_error (spec_rot k v) i = nth_error v (Z.to_nat ((Z.of_nat i + k) mod Z.of_nat (length v))).
+Proof.
+  intros H. split; [|apply spec_rot_nth; exact H].
+  unfold spec_rot_map. rewrite nth_error_map, nth_error_seq' by exact H. reflexivity.
+Qed.
+
+Lemma index_of_lowest (p : polyline R) pt j : s_index_of ROps p pt = Ok j ->
+  (exists x, nth_error (pv p) j = Some x /\ vclose8 ROps x pt = true) /\
+  (forall k y, (k < j)%nat -> nth_error (pv p) k = Some y -> vclose8 ROps y pt = false).
+Proof.
+  intros H. unfold s_index_of in H. destruct (spec_find_from ROps 0 (pv p) pt) eqn:E; [|discriminate].
+  injection H as ->. apply spec_find_lowest in E. rewrite Nat.sub_0_r in E. exact (proj2 E).
+Qed.
+Lemma index_of_none (p : polyline R) pt : s_index_of ROps p pt = Raise ValueError <->
+  forall x, In x (pv p) -> vclose8 ROps x pt = false.
+Proof.
+  unfold s_index_of. destruct (spec_find_from ROps 0 (pv p) pt) as [j|] eqn:E; split; intros H.
+  - discriminate.
+  - exfalso. apply spec_find_lowest in E. destruct E as [_ [[x [Hx Hc]] _]].
+    rewrite (H x (nth_error_In _ _ Hx)) in Hc. discriminate.
+  - apply (spec_find_none _ _ _ E).
+  - reflexivity.
+Qed.
+
+Lemma apex_is_max (p : polyline R) ax x : s_apex ROps p ax = Ok x ->
+  In x (pv p) /\ forall y, In y (pv p) -> (vdot ROps y ax <= vdot ROps x ax)%R.
+Proof.
+  intros H. unfold s_apex in H. destruct (spec_apex ROps (pv p) ax) as [[y m]|] eqn:E; [|discriminate].
+  injection H as ->. destruct (spec_apex_max ax _ _ _ E) as [-> [Hin Hmax]]. split; assumption.
+Qed.
+
+Lemma undefined_operations_raise (p : polyline R) k bps s t v :
+  (pclosed p = false -> c_rolled p k = Raise ValueError) /\
+  (pclosed p = true -> c_sectioned p bps = Raise NotImplementedError /\ c_aligned ROps p v = Raise ValueError) /\
+  (pclosed p = false -> (t <= s)%nat -> c_sliced p s t = Raise ValueError) /\
+  c_join (F:=R) [] true = Raise ValueError /\ c_join [p; MkPolyline (pv p) true] false = Raise ValueError.
+Proof.
+  unfold c_rolled, c_sectioned, c_aligned, c_sliced, c_join. repeat split.
+  - intros ->. reflexivity.
+  - rewrite H. reflexivity.
+  - rewrite H. reflexivity.
+  - intros -> H. apply Nat.leb_le in H. rewrite H. reflexivity.
+  - cbn. rewrite orb_true_r. reflexivity.
+Qed.
+
+Lemma code_errors_leave_unchanged (pl : list (polyline R)) o e :
+  snd (step (code_impl ROps) pl o) = ObRaise e -> fst (step (code_impl ROps) pl o) = pl.
+Proof. apply errors_leave_unchanged. Qed.
+Lemma code_pool_only_grows (pl : list (polyline R)) o : exists news, fst (step (code_impl ROps) pl o) = pl ++ news.
+Proof. apply pool_only_grows. Qed.
